@@ -2246,7 +2246,11 @@ async fn handle_packet(
         inner.created_at.elapsed().as_nanos() as u64,
         Ordering::Relaxed,
     );
-    let b = packet[0];
+    // An empty payload (zero-length TURN ChannelData / DATA attribute) carries
+    // nothing to classify.
+    let Some(&b) = packet.first() else {
+        return;
+    };
     if b < 2 {
         // STUN
         match StunMessage::decode(packet) {
